@@ -1,6 +1,775 @@
-//! In-process twin of generated bench crates (filled in later).
+//! In-process twin of a benchmark crate: a generated *spec* of modules,
+//! groups, benchmarks (plain, with args, generic over types/consts) is turned
+//! into exactly the registry entries the `#[divan::bench]` /
+//! `#[divan::bench_group]` macros emit (built from the public `__private`
+//! structs, pushed through the public `EntryList::push`), and the real runner
+//! (`Divan::main` / `run_action`) is driven over it. Benchmark bodies log what
+//! they received. The same spec can be run in a child process (`vcheck` started
+//! with `VCHECK_TWIN_CHILD`) so that real command lines and environment
+//! variables go through `divan::main()`.
 
-pub fn child_main(_path: &str) {
-    eprintln!("twin child mode not built yet");
-    std::process::exit(2);
+use std::{
+    borrow::Cow,
+    cell::Cell,
+    fmt,
+    sync::{
+        atomic::{AtomicU64, Ordering::SeqCst},
+        LazyLock, Mutex, RwLock,
+    },
+    time::Duration,
+};
+
+use divan::{
+    counter::{BytesCount, CharsCount, CyclesCount, ItemsCount},
+    Bencher, Divan,
+    __private::{
+        BenchArgs, BenchEntry, BenchEntryRunner, BenchOptions, EntryConst, EntryList, EntryLocation, EntryMeta, EntryType, GenericBenchEntry,
+        GroupEntry, BENCH_ENTRIES, GROUP_ENTRIES,
+    },
+    __verif::{
+        bench::{bencher_view, OptionsView, VAction},
+        clock,
+        runner::{self, RunnerCfg},
+    },
+};
+use serde::{Deserialize, Serialize};
+
+use crate::{capture, engine::catch};
+
+// ---------------------------------------------------------------------------
+// Spec
+
+#[derive(Clone, Debug, Default, PartialEq, Serialize, Deserialize)]
+pub struct OptSpec {
+    pub sample_count: Option<u32>,
+    pub sample_size: Option<u32>,
+    pub threads: Option<Vec<usize>>,
+    /// bytes, chars, cycles, items
+    pub counters: [Option<u64>; 4],
+    /// nanoseconds
+    pub min_time_ns: Option<u64>,
+    pub max_time_ns: Option<u64>,
+    pub skip_ext_time: Option<bool>,
+    pub ignore: Option<bool>,
+}
+
+impl OptSpec {
+    pub fn is_empty(&self) -> bool {
+        *self == OptSpec::default()
+    }
+
+    pub fn to_options(&self) -> BenchOptions<'static> {
+        let mut counters = divan::__private::new_counter_set();
+        if let Some(v) = self.counters[0] {
+            counters.insert(BytesCount::new(v));
+        }
+        if let Some(v) = self.counters[1] {
+            counters.insert(CharsCount::new(v));
+        }
+        if let Some(v) = self.counters[2] {
+            counters.insert(CyclesCount::new(v));
+        }
+        if let Some(v) = self.counters[3] {
+            counters.insert(ItemsCount::new(v));
+        }
+        BenchOptions {
+            sample_count: self.sample_count,
+            sample_size: self.sample_size,
+            threads: self.threads.clone().map(|t| Cow::Owned(normalize_threads_attr(t))),
+            counters,
+            min_time: self.min_time_ns.map(Duration::from_nanos),
+            max_time: self.max_time_ns.map(Duration::from_nanos),
+            skip_ext_time: self.skip_ext_time,
+            ignore: self.ignore,
+        }
+    }
+}
+
+/// What `IntoThreads` does to an attribute's list: sort + dedup (0 kept).
+pub fn normalize_threads_attr(mut t: Vec<usize>) -> Vec<usize> {
+    t.sort_unstable();
+    t.dedup();
+    t
+}
+
+#[derive(Clone, Debug, PartialEq, Eq, Serialize, Deserialize)]
+pub struct Loc {
+    pub file: String,
+    pub line: u32,
+    pub col: u32,
+}
+
+#[derive(Clone, Debug, PartialEq, Serialize, Deserialize)]
+pub struct Meta {
+    /// Module path components including the crate name (raw identifiers).
+    pub module_path: Vec<String>,
+    /// Identifier of the item (may start with `r#`).
+    pub raw_name: String,
+    /// `name = "..."`.
+    pub custom_name: Option<String>,
+    pub loc: Loc,
+    /// `None`: the attribute sets no option at all.
+    pub options: Option<OptSpec>,
+}
+
+impl Meta {
+    pub fn display_name(&self) -> String {
+        match &self.custom_name {
+            Some(n) => n.clone(),
+            None => self.raw_name.strip_prefix("r#").unwrap_or(&self.raw_name).to_string(),
+        }
+    }
+}
+
+#[derive(Clone, Debug, PartialEq, Serialize, Deserialize)]
+pub enum ArgList {
+    Ints(Vec<i64>),
+    Strs(Vec<String>),
+    Floats(Vec<f64>),
+}
+
+impl ArgList {
+    pub fn values(&self) -> Vec<ArgVal> {
+        match self {
+            ArgList::Ints(v) => v.iter().map(|&x| ArgVal::Int(x)).collect(),
+            ArgList::Strs(v) => v.iter().map(|x| ArgVal::Str(x.clone())).collect(),
+            ArgList::Floats(v) => v.iter().map(|&x| ArgVal::Float(x)).collect(),
+        }
+    }
+
+    pub fn names(&self) -> Vec<String> {
+        self.values().iter().map(|v| v.to_string()).collect()
+    }
+
+    pub fn len(&self) -> usize {
+        match self {
+            ArgList::Ints(v) => v.len(),
+            ArgList::Strs(v) => v.len(),
+            ArgList::Floats(v) => v.len(),
+        }
+    }
+}
+
+#[derive(Clone, Debug, PartialEq)]
+pub enum ArgVal {
+    Int(i64),
+    Str(String),
+    Float(f64),
+}
+
+impl fmt::Display for ArgVal {
+    fn fmt(&self, f: &mut fmt::Formatter) -> fmt::Result {
+        match self {
+            ArgVal::Int(v) => write!(f, "{v}"),
+            ArgVal::Str(v) => write!(f, "{v}"),
+            ArgVal::Float(v) => write!(f, "{v}"),
+        }
+    }
+}
+
+#[derive(Clone, Debug, PartialEq, Serialize, Deserialize)]
+pub enum ConstList {
+    Usize(Vec<usize>),
+    I32(Vec<i32>),
+    Char(Vec<char>),
+    Bool(Vec<bool>),
+}
+
+impl ConstList {
+    pub fn names(&self) -> Vec<String> {
+        match self {
+            ConstList::Usize(v) => v.iter().map(|x| x.to_string()).collect(),
+            ConstList::I32(v) => v.iter().map(|x| x.to_string()).collect(),
+            ConstList::Char(v) => v.iter().map(|x| x.to_string()).collect(),
+            ConstList::Bool(v) => v.iter().map(|x| x.to_string()).collect(),
+        }
+    }
+
+    pub fn len(&self) -> usize {
+        self.names().len()
+    }
+}
+
+#[derive(Clone, Copy, Debug, PartialEq, Eq, Serialize, Deserialize)]
+pub enum Body {
+    /// `bencher.bench(|| ())`
+    Bench,
+    /// `bencher.with_inputs(..).input_counter(items).bench_values(..)`
+    WithInputs,
+    /// `bencher.counter(BytesCount::new(7)).bench(..)`
+    SetsBytesCounter,
+    /// Does not call any `bench*` method.
+    NoRun,
+}
+
+#[derive(Clone, Debug, PartialEq, Serialize, Deserialize)]
+pub struct BenchSpec {
+    pub meta: Meta,
+    pub args: Option<ArgList>,
+    /// Indices into the type pool (`types = [...]`).
+    pub types: Option<Vec<u8>>,
+    pub consts: Option<ConstList>,
+    pub body: Body,
+    pub uid: u32,
+}
+
+impl BenchSpec {
+    pub fn is_generic(&self) -> bool {
+        self.types.is_some() || self.consts.is_some()
+    }
+}
+
+#[derive(Clone, Debug, PartialEq, Serialize, Deserialize)]
+pub enum Item {
+    Bench(BenchSpec),
+    /// `#[divan::bench_group]` on module `meta.raw_name` inside `meta.module_path`.
+    Group(Meta),
+}
+
+#[derive(Clone, Debug, PartialEq, Serialize, Deserialize)]
+pub struct TwinSpec {
+    /// In registration (constructor) order.
+    pub items: Vec<Item>,
+}
+
+// ---------------------------------------------------------------------------
+// Type pool for `types = [...]`
+
+pub mod types {
+    pub struct Alpha;
+    pub struct Beta;
+    pub mod inner {
+        pub struct Gamma;
+        pub mod deeper {
+            pub struct Delta;
+        }
+    }
+    pub struct Wrap<const N: usize>;
+    pub struct Pair<A, B>(pub A, pub B);
+}
+
+pub const TYPE_POOL_LEN: usize = 10;
+
+/// `(display name the runner must show, raw type name suffix)`.
+pub fn type_display(i: u8) -> &'static str {
+    match i as usize % TYPE_POOL_LEN {
+        0 => "Alpha",
+        1 => "Beta",
+        2 => "Gamma",
+        3 => "Delta",
+        4 => "Wrap<4>",
+        5 => "Wrap<16>",
+        6 => "i32",
+        7 => "String",
+        8 => "Vec<i32>",
+        _ => "Pair<vcheck::props::twin::types::Alpha, alloc::string::String>",
+    }
+}
+
+fn entry_type(i: u8) -> EntryType {
+    use types::*;
+    match i as usize % TYPE_POOL_LEN {
+        0 => EntryType::new::<Alpha>(),
+        1 => EntryType::new::<Beta>(),
+        2 => EntryType::new::<inner::Gamma>(),
+        3 => EntryType::new::<inner::deeper::Delta>(),
+        4 => EntryType::new::<Wrap<4>>(),
+        5 => EntryType::new::<Wrap<16>>(),
+        6 => EntryType::new::<i32>(),
+        7 => EntryType::new::<String>(),
+        8 => EntryType::new::<Vec<i32>>(),
+        _ => EntryType::new::<Pair<Alpha, String>>(),
+    }
+}
+
+// ---------------------------------------------------------------------------
+// Runtime tables behind the static runner functions
+
+pub const SLOTS: usize = 160;
+
+#[derive(Clone, Default)]
+struct Slot {
+    uid: u32,
+    body: Option<Body>,
+    /// Label of the generic instantiation this slot stands for.
+    type_label: Option<String>,
+    const_label: Option<String>,
+    args: Option<Vec<ArgVal>>,
+    bench_args: Option<&'static BenchArgs>,
+    options: Option<OptSpec>,
+}
+
+static TABLE: LazyLock<RwLock<Vec<Slot>>> = LazyLock::new(|| RwLock::new(vec![Slot::default(); SLOTS]));
+
+/// One invocation of a benchmark body by the runner.
+#[derive(Clone, Debug, PartialEq, Serialize, Deserialize)]
+pub struct Invocation {
+    pub uid: u32,
+    pub type_label: Option<String>,
+    pub const_label: Option<String>,
+    /// Rendering of the argument value the body *received*.
+    pub arg: Option<String>,
+    pub thread_count: usize,
+    pub is_test: bool,
+    pub is_bench: bool,
+    pub sample_count: Option<u32>,
+    pub sample_size: Option<u32>,
+    pub threads: Option<Vec<usize>>,
+    pub counters: [Option<u64>; 4],
+    pub collection_counts: [Vec<u64>; 4],
+    pub min_time_ns: Option<u64>,
+    pub max_time_ns: Option<u64>,
+    pub skip_ext_time: Option<bool>,
+    pub ignore: Option<bool>,
+    /// Calls of the benchmarked closure.
+    pub calls: u64,
+}
+
+static INVOCATIONS: Mutex<Vec<Invocation>> = Mutex::new(Vec::new());
+/// How often each slot's argument list was evaluated.
+static ARG_EVALS: LazyLock<Mutex<Vec<u32>>> = LazyLock::new(|| Mutex::new(vec![0; SLOTS]));
+static CALLS: AtomicU64 = AtomicU64::new(0);
+
+fn record(slot: &Slot, view: OptionsView, arg: Option<String>, calls: u64) {
+    INVOCATIONS.lock().unwrap().push(Invocation {
+        uid: slot.uid,
+        type_label: slot.type_label.clone(),
+        const_label: slot.const_label.clone(),
+        arg,
+        thread_count: view.thread_count,
+        is_test: view.is_test,
+        is_bench: view.is_bench,
+        sample_count: view.sample_count,
+        sample_size: view.sample_size,
+        threads: view.threads,
+        counters: view.counters,
+        collection_counts: view.collection_counts,
+        min_time_ns: view.min_time.map(|d| d.as_nanos() as u64),
+        max_time_ns: view.max_time.map(|d| d.as_nanos() as u64),
+        skip_ext_time: view.skip_ext_time,
+        ignore: view.ignore,
+        calls,
+    });
+}
+
+fn run_body(k: usize, bencher: Bencher, arg: Option<String>) {
+    let slot = TABLE.read().unwrap()[k].clone();
+    let before = CALLS.load(SeqCst);
+    let body = slot.body.unwrap_or(Body::Bench);
+    let view;
+    match body {
+        Body::Bench => {
+            view = bencher_view(&bencher);
+            bencher.bench(|| {
+                CALLS.fetch_add(1, SeqCst);
+            });
+        }
+        Body::WithInputs => {
+            let b = bencher.with_inputs(|| 3usize).input_counter(|n: &usize| ItemsCount::new(*n));
+            view = bencher_view(&b);
+            b.bench_values(|n| {
+                CALLS.fetch_add(1, SeqCst);
+                n
+            });
+        }
+        Body::SetsBytesCounter => {
+            let b = bencher.with_inputs(|| ()).counter(BytesCount::new(7u64));
+            view = bencher_view(&b);
+            b.bench_values(|_| {
+                CALLS.fetch_add(1, SeqCst);
+            });
+        }
+        Body::NoRun => {
+            view = bencher_view(&bencher);
+            drop(bencher);
+        }
+    }
+    record(&slot, view, arg, CALLS.load(SeqCst) - before);
+}
+
+fn plain_runner<const K: usize>(bencher: Bencher) {
+    run_body(K, bencher, None);
+}
+
+fn options_fn<const K: usize>() -> BenchOptions<'static> {
+    TABLE.read().unwrap()[K].options.clone().unwrap_or_default().to_options()
+}
+
+/// `BenchEntryRunner::Args(|| ARGS.runner(..))` exactly as the macro emits it
+/// (the closure captures nothing, `K` is a const parameter).
+fn args_runner<const K: usize>() -> BenchEntryRunner {
+    BenchEntryRunner::Args(|| {
+        let (bench_args, values) = {
+            let t = TABLE.read().unwrap();
+            (t[K].bench_args.expect("args slot"), t[K].args.clone().unwrap_or_default())
+        };
+        bench_args.runner(
+            move || {
+                ARG_EVALS.lock().unwrap()[K] += 1;
+                values
+            },
+            |arg: &ArgVal| arg.to_string(),
+            |bencher, arg: &ArgVal| run_body(K, bencher, Some(arg.to_string())),
+        )
+    })
+}
+
+macro_rules! fn_tables {
+    ($($k:literal)*) => {
+        static PLAIN: [fn(Bencher); SLOTS] = [$(plain_runner::<$k>),*];
+        static ARGS: [fn() -> BenchEntryRunner; SLOTS] = [$(args_runner::<$k>),*];
+        static OPTS: [fn() -> BenchOptions<'static>; SLOTS] = [$(options_fn::<$k>),*];
+    };
+}
+
+fn_tables!(0 1 2 3 4 5 6 7 8 9 10 11 12 13 14 15 16 17 18 19 20 21 22 23 24 25 26 27 28 29 30 31 32 33 34 35 36 37 38 39
+    40 41 42 43 44 45 46 47 48 49 50 51 52 53 54 55 56 57 58 59 60 61 62 63 64 65 66 67 68 69 70 71 72 73 74 75 76 77 78 79
+    80 81 82 83 84 85 86 87 88 89 90 91 92 93 94 95 96 97 98 99 100 101 102 103 104 105 106 107 108 109 110 111 112 113 114 115 116 117 118 119
+    120 121 122 123 124 125 126 127 128 129 130 131 132 133 134 135 136 137 138 139 140 141 142 143 144 145 146 147 148 149 150 151 152 153 154 155 156 157 158 159);
+
+// ---------------------------------------------------------------------------
+// Building the registry
+
+fn leak_str(s: &str) -> &'static str {
+    Box::leak(s.to_string().into_boxed_str())
+}
+
+/// Slots needed by a spec.
+pub fn slots_needed(spec: &TwinSpec) -> usize {
+    spec.items
+        .iter()
+        .map(|i| match i {
+            Item::Group(_) => 1,
+            Item::Bench(b) => {
+                if b.is_generic() {
+                    let t = b.types.as_ref().map(|t| t.len()).unwrap_or(1);
+                    let c = b.consts.as_ref().map(|c| c.len()).unwrap_or(1);
+                    1 + t * c
+                } else {
+                    1
+                }
+            }
+        })
+        .sum()
+}
+
+fn meta_of(m: &Meta, slot: usize) -> EntryMeta {
+    EntryMeta {
+        display_name: leak_str(&m.display_name()),
+        raw_name: leak_str(&m.raw_name),
+        module_path: leak_str(&m.module_path.join("::")),
+        location: EntryLocation { file: leak_str(&m.loc.file), line: m.loc.line, col: m.loc.col },
+        bench_options: m.options.as_ref().map(|_| LazyLock::new(OPTS[slot])),
+    }
+}
+
+/// Empties the registry and registers the spec's items in order. (Entries are
+/// leaked: they are small, and divan may keep `'static` references to them.)
+pub fn register(spec: &TwinSpec) -> Result<(), String> {
+    if slots_needed(spec) > SLOTS {
+        return Err(format!("spec needs {} slots", slots_needed(spec)));
+    }
+    runner::clear_registry();
+    INVOCATIONS.lock().unwrap().clear();
+    for e in ARG_EVALS.lock().unwrap().iter_mut() {
+        *e = 0;
+    }
+    let mut table = TABLE.write().unwrap();
+    for s in table.iter_mut() {
+        *s = Slot::default();
+    }
+    let mut next = 0usize;
+    for item in &spec.items {
+        match item {
+            Item::Group(m) => {
+                let slot = next;
+                next += 1;
+                table[slot].options = m.options.clone();
+                let entry: &'static GroupEntry = Box::leak(Box::new(GroupEntry { meta: meta_of(m, slot), generic_benches: None }));
+                let node: &'static EntryList<GroupEntry> = Box::leak(Box::new(EntryList::new(entry)));
+                GROUP_ENTRIES.push(node);
+            }
+            Item::Bench(b) if !b.is_generic() => {
+                let slot = next;
+                next += 1;
+                table[slot].uid = b.uid;
+                table[slot].body = Some(b.body);
+                table[slot].options = b.meta.options.clone();
+                let bench = match &b.args {
+                    None => BenchEntryRunner::Plain(PLAIN[slot]),
+                    Some(args) => {
+                        table[slot].args = Some(args.values());
+                        table[slot].bench_args = Some(Box::leak(Box::new(BenchArgs::new())));
+                        ARGS[slot]()
+                    }
+                };
+                let entry: &'static BenchEntry = Box::leak(Box::new(BenchEntry { meta: meta_of(&b.meta, slot), bench }));
+                let node: &'static EntryList<BenchEntry> = Box::leak(Box::new(EntryList::new(entry)));
+                BENCH_ENTRIES.push(node);
+            }
+            Item::Bench(b) => {
+                // Generic: a GroupEntry whose `generic_benches` is a two-dimensional
+                // slice: outer = types, inner = consts.
+                let group_slot = next;
+                next += 1;
+                table[group_slot].options = b.meta.options.clone();
+                let group: &'static mut GroupEntry = Box::leak(Box::new(GroupEntry { meta: meta_of(&b.meta, group_slot), generic_benches: None }));
+                let group_ptr: *mut GroupEntry = group;
+                let group_ref: &'static GroupEntry = unsafe { &*group_ptr };
+                let shared_args: Option<&'static BenchArgs> = b.args.as_ref().map(|_| &*Box::leak(Box::new(BenchArgs::new())));
+                let type_list: Vec<Option<u8>> = match &b.types {
+                    Some(t) => t.iter().map(|&x| Some(x)).collect(),
+                    None => vec![None],
+                };
+                let const_names: Vec<Option<usize>> = match &b.consts {
+                    Some(c) => (0..c.len()).map(Some).collect(),
+                    None => vec![None],
+                };
+                let mut per_type: Vec<Vec<GenericBenchEntry>> = Vec::new();
+                for ty in &type_list {
+                    let mut inner: Vec<GenericBenchEntry> = Vec::new();
+                    for ci in &const_names {
+                        let slot = next;
+                        next += 1;
+                        table[slot].uid = b.uid;
+                        table[slot].body = Some(b.body);
+                        table[slot].type_label = ty.map(|t| type_display(t).to_string());
+                        table[slot].const_label = ci.map(|i| b.consts.as_ref().unwrap().names()[i].clone());
+                        let bench = match &b.args {
+                            None => BenchEntryRunner::Plain(PLAIN[slot]),
+                            Some(args) => {
+                                table[slot].args = Some(args.values());
+                                // All instantiations share one `BenchArgs`.
+                                table[slot].bench_args = shared_args;
+                                ARGS[slot]()
+                            }
+                        };
+                        let const_value = ci.map(|i| match b.consts.as_ref().unwrap() {
+                            ConstList::Usize(v) => EntryConst::new::<usize>(Box::leak(Box::new(v[i]))),
+                            ConstList::I32(v) => EntryConst::new::<i32>(Box::leak(Box::new(v[i]))),
+                            ConstList::Char(v) => EntryConst::new::<char>(Box::leak(Box::new(v[i]))),
+                            ConstList::Bool(v) => EntryConst::new::<bool>(Box::leak(Box::new(v[i]))),
+                        });
+                        inner.push(GenericBenchEntry { group: group_ref, bench, ty: ty.map(entry_type), const_value });
+                    }
+                    per_type.push(inner);
+                }
+                // The macro emits `&[&[e(T1), e(T2), ...]]` for types only and one
+                // inner array per type when there are consts.
+                let outer: Vec<Vec<GenericBenchEntry>> = if b.consts.is_none() { vec![per_type.into_iter().flatten().collect()] } else { per_type };
+                let outer: Vec<&'static [GenericBenchEntry]> = outer.into_iter().map(|v| &*Box::leak(v.into_boxed_slice())).collect();
+                let outer: &'static [&'static [GenericBenchEntry]] = Box::leak(outer.into_boxed_slice());
+                // `types = []` or `consts = []` registers nothing at all.
+                let empty = b.types.as_ref().map(|t| t.is_empty()).unwrap_or(false) || b.consts.as_ref().map(|c| c.len() == 0).unwrap_or(false);
+                if !empty {
+                    unsafe { (*group_ptr).generic_benches = Some(outer) };
+                    let node: &'static EntryList<GroupEntry> = Box::leak(Box::new(EntryList::new(group_ref)));
+                    GROUP_ENTRIES.push(node);
+                }
+            }
+        }
+    }
+    Ok(())
+}
+
+// ---------------------------------------------------------------------------
+// Running
+
+/// Options set on the runner (builder calls / CLI flags / environment).
+#[derive(Clone, Debug, Default, PartialEq, Serialize, Deserialize)]
+pub struct RunCfg {
+    /// "bench", "test", "list", "list-terse", or "list-api" (`Divan::list_benches`).
+    pub action: String,
+    pub options: OptSpec,
+    /// `(inclusive, exact, pattern)` in insertion order.
+    pub filters: Vec<(bool, bool, String)>,
+    /// 0 kind, 1 name, 2 location.
+    pub sort: u8,
+    pub reverse: bool,
+    /// 0 no flag, 1 `--ignored`, 2 `--include-ignored`.
+    pub ignored: u8,
+    pub binary_bytes: bool,
+}
+
+#[derive(Clone, Debug, Default)]
+pub struct TwinRun {
+    pub stdout: String,
+    pub invocations: Vec<Invocation>,
+    pub arg_evals: Vec<u32>,
+    pub panic: Option<String>,
+}
+
+thread_local! {
+    static TWIN_CLOCK: Cell<u64> = const { Cell::new(0) };
+}
+
+/// Every reading is 100 ticks after the previous one of the same thread, so
+/// every timed section measures exactly 100 ticks.
+fn twin_reader(_is_end: bool) -> u64 {
+    TWIN_CLOCK.with(|c| {
+        let v = c.get() + 100;
+        c.set(v);
+        v
+    })
+}
+
+pub const TWIN_FREQUENCY: u64 = 1_000_000_000;
+/// Duration of every sample in the twin's bench mode, in picoseconds.
+pub const TWIN_SAMPLE_PS: u128 = 100_000;
+
+pub fn install_clock() {
+    clock::set_reader(Some(twin_reader));
+    clock::set_frequency(TWIN_FREQUENCY);
+    clock::set_precision(Some(500));
+    clock::set_overheads(Some([0; 4]));
+}
+
+pub fn uninstall_clock() {
+    clock::set_reader(None);
+    clock::set_frequency(0);
+    clock::set_precision(None);
+    clock::set_overheads(None);
+}
+
+pub fn build_divan(cfg: &RunCfg) -> Result<Divan, String> {
+    let mut d = Divan::default();
+    let o = &cfg.options;
+    if let Some(v) = o.sample_count {
+        d = d.sample_count(v);
+    }
+    if let Some(v) = o.sample_size {
+        d = d.sample_size(v);
+    }
+    if let Some(v) = &o.threads {
+        d = d.threads(v.iter().copied());
+    }
+    if let Some(v) = o.counters[0] {
+        d = d.bytes_count(v);
+    }
+    if let Some(v) = o.counters[1] {
+        d = d.chars_count(v);
+    }
+    if let Some(v) = o.counters[2] {
+        d = d.cycles_count(v);
+    }
+    if let Some(v) = o.counters[3] {
+        d = d.items_count(v);
+    }
+    if let Some(v) = o.min_time_ns {
+        d = d.min_time(Duration::from_nanos(v));
+    }
+    if let Some(v) = o.max_time_ns {
+        d = d.max_time(Duration::from_nanos(v));
+    }
+    if let Some(v) = o.skip_ext_time {
+        d = d.skip_ext_time(v);
+    }
+    match cfg.ignored {
+        1 => d = d.run_only_ignored(),
+        2 => d = d.run_ignored(),
+        _ => {}
+    }
+    if cfg.binary_bytes {
+        d = d.bytes_format(divan::counter::BytesFormat::Binary);
+    }
+    d = d.color(false);
+    // Skip filters have builder methods; positive filters, sort and the list
+    // actions are only reachable through the CLI, hence the hook.
+    let mut hook_filters = Vec::new();
+    for (inclusive, exact, pattern) in &cfg.filters {
+        if *inclusive {
+            hook_filters.push((true, *exact, pattern.clone()));
+        } else if *exact {
+            d = d.skip_exact(pattern.clone());
+        } else {
+            match regex_lite_ok(pattern) {
+                true => d = d.skip_regex(pattern.as_str()),
+                false => return Err(format!("bad regex {pattern:?}")),
+            }
+        }
+    }
+    let action = match cfg.action.as_str() {
+        "bench" => Some(VAction::Bench),
+        "test" => Some(VAction::Test),
+        "list" => Some(VAction::List),
+        "list-terse" => Some(VAction::ListTerse),
+        _ => None,
+    };
+    runner::configure(d, &RunnerCfg { action, timer_tsc: true, sorting_attr: cfg.sort, reverse_sort: cfg.reverse, filters: hook_filters })
+}
+
+fn regex_lite_ok(pattern: &str) -> bool {
+    divan::__verif::pure::filter_is_match(&[(true, false, pattern.to_string())], &[]).is_ok()
+}
+
+/// Registers the spec and runs the configured action in this process.
+pub fn run_in_process(spec: &TwinSpec, cfg: &RunCfg) -> Result<TwinRun, String> {
+    register(spec)?;
+    let divan = build_divan(cfg)?;
+    install_clock();
+    let (result, stdout) = capture::stdout(|| match cfg.action.as_str() {
+        "list-api" => divan.list_benches(),
+        _ => divan.main(),
+    });
+    uninstall_clock();
+    runner::clear_registry();
+    let invocations = std::mem::take(&mut *INVOCATIONS.lock().unwrap());
+    let arg_evals = ARG_EVALS.lock().unwrap().clone();
+    Ok(TwinRun { stdout, invocations, arg_evals, panic: result.err() })
+}
+
+// ---------------------------------------------------------------------------
+// Child process mode (real argv / environment through `divan::main()`)
+
+#[derive(Serialize, Deserialize)]
+struct ChildReport {
+    invocations: Vec<Invocation>,
+    arg_evals: Vec<u32>,
+}
+
+pub fn child_main(path: &str) {
+    crate::engine::install_panic_hook();
+    crate::engine::set_quiet_panics(false);
+    let spec: TwinSpec = serde_json::from_slice(&std::fs::read(path).expect("read spec")).expect("parse spec");
+    register(&spec).expect("register");
+    install_clock();
+    let result = catch(divan::main);
+    let report = ChildReport { invocations: std::mem::take(&mut *INVOCATIONS.lock().unwrap()), arg_evals: ARG_EVALS.lock().unwrap().clone() };
+    if let Ok(out) = std::env::var("VCHECK_TWIN_LOG") {
+        std::fs::write(out, serde_json::to_vec(&report).unwrap()).expect("write child report");
+    }
+    use std::io::Write;
+    let _ = std::io::stdout().flush();
+    std::process::exit(if result.is_ok() { 0 } else { 101 });
+}
+
+/// Runs the spec in a child process with real command-line arguments and
+/// environment variables.
+pub fn run_child(spec: &TwinSpec, args: &[String], env: &[(String, String)], tag: &str) -> Result<(TwinRun, i32, String), String> {
+    let dir = std::path::Path::new(crate::engine::VERIF_DIR).join("target").join("twin");
+    std::fs::create_dir_all(&dir).map_err(|e| e.to_string())?;
+    let spec_path = dir.join(format!("{tag}.spec.json"));
+    let log_path = dir.join(format!("{tag}.log.json"));
+    std::fs::write(&spec_path, serde_json::to_vec(spec).unwrap()).map_err(|e| e.to_string())?;
+    let _ = std::fs::remove_file(&log_path);
+    let exe = std::env::current_exe().map_err(|e| e.to_string())?;
+    let mut cmd = std::process::Command::new(exe);
+    cmd.args(args);
+    // A clean environment: only what the case sets.
+    cmd.env_clear();
+    cmd.env("VCHECK_TWIN_CHILD", &spec_path).env("VCHECK_TWIN_LOG", &log_path);
+    for (k, v) in env {
+        cmd.env(k, v);
+    }
+    let out = cmd.stdin(std::process::Stdio::null()).output().map_err(|e| e.to_string())?;
+    let report: Option<ChildReport> = std::fs::read(&log_path).ok().and_then(|b| serde_json::from_slice(&b).ok());
+    let _ = std::fs::remove_file(&spec_path);
+    let _ = std::fs::remove_file(&log_path);
+    let code = out.status.code().unwrap_or(-1);
+    let stderr = String::from_utf8_lossy(&out.stderr).to_string();
+    let (invocations, arg_evals) = match report {
+        Some(r) => (r.invocations, r.arg_evals),
+        None => (Vec::new(), Vec::new()),
+    };
+    Ok((TwinRun { stdout: String::from_utf8_lossy(&out.stdout).to_string(), invocations, arg_evals, panic: if code == 101 { Some(stderr.clone()) } else { None } }, code, stderr))
 }
